@@ -206,9 +206,46 @@ func limitBigWorker(args []string) int {
 	lc.Grammar, lc.Entry, lc.Limit, lc.N, lc.OK0 = grammar, entry, limit, n, true
 	lc.Src = []int{}
 	var crash string
-	lc.Events = captureEvents(func() {
-		lc.Tree, lc.OK, lc.ErrText, crash = parseLimited(grammar, entry, text, limit)
-	})
+	if entry == "ParseSchemasWithLimit(exact prefix)" {
+		// two sources in one call: the first has EXACTLY `limit` tokens (so it fits), the second is the big
+		// one. Every source has the limit to itself, so the second must fail after work bounded by the
+		// limit. Only the events of the second source are kept (its parser's counter restarts at 1).
+		prefix := strings.Repeat("scalar S ", limit/2)
+		evs := captureEvents(func() {
+			defer func() {
+				if r := recover(); r != nil {
+					crash = fmt.Sprintf("panic: %v", r)
+				}
+			}()
+			d, err := parser.ParseSchemasWithLimit(limit, &ast.Source{Name: "prefix.graphql", Input: prefix}, &ast.Source{Name: "big.graphql", Input: text})
+			lc.OK = err == nil && d != nil
+			if err != nil {
+				lc.ErrText = err.Error()
+			}
+		})
+		cut, seen := 0, 0
+		for i, e := range evs {
+			if len(e) >= 2 && e[0] == "N" && fmt.Sprint(e[1]) == "1" {
+				seen++
+				if seen == 2 {
+					cut = i
+					if cut > 0 && evs[cut-1][0] == "L" {
+						cut-- // the look-ahead read that precedes the first counted token of this source
+					}
+					break
+				}
+			}
+		}
+		lc.Events = evs[cut:]
+		if seen < 2 && !lc.OK && strings.HasPrefix(lc.ErrText, "prefix.graphql") {
+			fmt.Fprintln(os.Stderr, "the source with exactly limit tokens was refused: "+lc.ErrText)
+			return 3
+		}
+	} else {
+		lc.Events = captureEvents(func() {
+			lc.Tree, lc.OK, lc.ErrText, crash = parseLimited(grammar, entry, text, limit)
+		})
+	}
 	if crash != "" {
 		fmt.Fprintln(os.Stderr, crash)
 		return 3
@@ -415,6 +452,9 @@ func checkC16(c *core.Ctx) {
 				entry := "ParseQueryWithTokenLimit"
 				if grammar == "schema" {
 					entry = []string{"ParseSchemaWithLimit", "ParseSchemasWithLimit"}[limit%2]
+					if limit == 10 || limit == 200000 {
+						entry = "ParseSchemasWithLimit(exact prefix)"
+					}
 				}
 				wr := RunWorker(60*time.Second, nil, "limitbig", fam, strconv.Itoa(size), strconv.Itoa(limit), entry)
 				desc := fmt.Sprintf("%s on family %s (%d bytes) under limit %d", entry, fam, size, limit)
